@@ -32,7 +32,7 @@ def run(tier, wd):
     q = tier == "quick"
     core.replay_witnesses(rep, binpath, wd)
     # ---- lexical: every string over the character classes up to length 4 (5)
-    res, runs, rows = lc.lexer_runs(rep, wd, binpath, "MCLex4" if q else "MCLex5")
+    res, runs, rows = lc.lexer_runs(rep, wd, binpath, "MCLex4")
     drift = 0
     lex_nontriv = set()
     for m, s, ri, r in rows:
@@ -58,6 +58,11 @@ def run(tier, wd):
     import itertools
     for n in (1, 2, 3):
         for combo in itertools.product(units, repeat=n):
+            strs.add("".join(combo))
+    if not q:
+        # thorough: every string of length 5 over 13 of the classes (generated here, read by TLC from the file: building 17^5 or even
+        # 13^5 strings inside TLC's Init did not finish within 50 minutes)
+        for combo in itertools.product([" ", "[", ")", "|", ".", "-", "=", "<", ">", "A", "a", "1", "#"], repeat=5):
             strs.add("".join(combo))
     strs = sorted(strs)
     sub = os.path.join(wd, "lexfile")
